@@ -139,6 +139,13 @@ def ring_siblings(ctx) -> List[Ring]:
         for es in groups.values():
             if not any(_kind(e.eq) == "roll" for e in es):
                 continue
+            # equations appended to the same list after the literal (e.g. a read-out that is emitted separately because it is also
+            # emitted, alone, when the buffer already exists) belong to the sibling, in emission order
+            chain0 = U.branch_chain(es[0].stmt)
+            later = [e for e in ems if e.group is None and e.listname == es[0].listname and e.stmt.lineno > es[0].stmt.lineno
+                     and U.loop_of(e.stmt) is U.loop_of(es[0].stmt) and U.compatible(ctx, f, U.branch_chain(e.stmt), chain0)
+                     and _kind(e.eq) in ("read", "write", "roll") and not e.eq.ode]
+            es = es + sorted(later, key=lambda e: (e.stmt.lineno, e.stmt.col_offset))
             rings.append(Ring(f=f, group=es[0].group, stmt=es[0].stmt, ems=es, kinds=[_kind(e.eq) for e in es],
                               chain=U.branch_chain(es[0].stmt)))
         stray = U.stray_equation_strings(ctx, f, [e.node for e in ems], lambda t: "roll(" in t)
@@ -391,6 +398,11 @@ def r1_ring_protocol(ctx, rid):
             raise AnalysisError(f"{rid}: {where}: equation `{bad}` is neither roll, write nor read (unrecognised form)")
         # ---- (a) exactly one of each, in the order roll -> write -> read
         if sorted(r.kinds) != ["read", "roll", "write"]:
+            others = [e for e in U.emissions(ctx, f) if e.listname == r.ems[0].listname and all(e is not x for x in r.ems)
+                      and U.compatible(ctx, f, U.branch_chain(e.stmt), r.chain)]
+            if others and len(r.kinds) < 3:
+                raise AnalysisError(f"{rid}: {where}: the list holds only {r.kinds}; further equations are added to `{r.ems[0].listname}` elsewhere "
+                                    f"({norm(others[0].stmt, 60)}): the protocol of this sibling is not recognised")
             ctx.violation(rid, f, r.stmt, f"{r.label}: the emitted list does not consist of exactly one roll, one write and one read "
                                           f"equation (found {r.kinds})", facts, label=f"{r.label}: order")
             continue
@@ -1063,6 +1075,8 @@ def _check_call_site(ctx, rid, g, call: ast.Call, coll, roles, addb=None):
     coll_calls = set()
     zips = set()
 
+    lifted = {"fn": g}
+
     def resolve(e, cond=None, pname=None):
         """-> (granularity 'all' | 'each', Name node of the whole list).  `x if c else None` stands for x where None is the
         parameter's default (the argument is then as good as omitted); an element drawn from `xs if c else repeat(None)` inside a
@@ -1077,25 +1091,35 @@ def _check_call_site(ctx, rid, g, call: ast.Call, coll, roles, addb=None):
         if isinstance(e, ast.Name):
             return "all", e, None
         if isinstance(e, ast.List) and len(e.elts) == 1 and isinstance(e.elts[0], ast.Name):
-            src = U.element_source(ctx, g, e.elts[0])
+            h, elt = g, e.elts[0]
+            if U.is_param(ctx, g, elt):
+                # the call sits in a helper that handles ONE edge and is itself called once per edge: look at the caller's argument
+                sites2 = ctx.cg.call_sites_of(g)
+                if len(sites2) != 1:
+                    return None, None, None
+                h, c2 = sites2[0]
+                a2 = U.bind_args(g, c2).get(elt.id)
+                if not isinstance(a2, ast.Name):
+                    return None, None, None
+                elt = a2
+                lifted["fn"] = h
+            src = U.element_source(ctx, h, elt)
             for _ in range(4):
-                if isinstance(src, ast.IfExp) and cond is not None:
-                    rel = U.test_relation(ctx, g, src.test, cond[0])
-                    if not rel:
-                        break
+                rel = U.test_relation(ctx, g, src.test, cond[0]) if isinstance(src, ast.IfExp) and cond is not None and h is g else 0
+                if isinstance(src, ast.IfExp) and rel:
                     src = src.body if (cond[1] if rel == 1 else not cond[1]) else src.orelse
-                elif isinstance(src, ast.IfExp) and cond is None:
+                elif isinstance(src, ast.IfExp):
                     # a column that is a collected list on one arm and a filler on the other: the list decides whose values these are
                     arms = [a_ for a_ in (src.body, src.orelse) if isinstance(a_, ast.Name)]
                     if len(arms) != 1:
                         break
                     src = arms[0]
-                elif isinstance(src, ast.Name) and isinstance(U.single_value(ctx, g, src), (ast.IfExp, ast.Name)):
-                    src = U.single_value(ctx, g, src)       # a local that only names the zipped column
+                elif isinstance(src, ast.Name) and isinstance(U.single_value(ctx, h, src), (ast.IfExp, ast.Name)):
+                    src = U.single_value(ctx, h, src)       # a local that only names the zipped column
                 else:
                     break
             if isinstance(src, ast.Name):
-                d = ctx.rd(g).defs_reaching(e.elts[0])
+                d = ctx.rd(h).defs_reaching(elt)
                 return "each", src, (d[0] if d else None)
         return None, None, None
 
@@ -1106,7 +1130,8 @@ def _check_call_site(ctx, rid, g, call: ast.Call, coll, roles, addb=None):
         gran.add(gr)
         if loop is not None:
             zips.add(id(loop))
-        b = _collect_binding(ctx, g, whole, coll)
+        fn = lifted["fn"]
+        b = _collect_binding(ctx, fn, whole, coll)
         if b is None:
             raise AnalysisError(f"{rid}: {g.qual}: cannot trace {kwname}={ast.unparse(kw[kwname])} back to a component of a "
                                 f"_collect_delays_from_edges result (unrecognised form)")
@@ -1125,7 +1150,7 @@ def _check_call_site(ctx, rid, g, call: ast.Call, coll, roles, addb=None):
             zips.add(id(loop_e))
         carg = ccall.args[0] if ccall.args else None
         same = isinstance(carg, ast.Name) and carg.id == whole_e.id and \
-            {id(d) for d in ctx.rd(g).defs_reaching(carg)} == {id(d) for d in ctx.rd(g).defs_reaching(whole_e)}
+            {id(d) for d in ctx.rd(fn).defs_reaching(carg)} == {id(d) for d in ctx.rd(fn).defs_reaching(whole_e)}
         if not same:
             problems.append(f"edges= derives from `{whole_e.id}` but the delays were collected from `{ast.unparse(carg) if carg is not None else '?'}`")
     if len(gran) > 1:
